@@ -35,7 +35,7 @@ OPS = {
     "C01": None,   # everything
     "C02": {"gen", "ctor", "then", "thenSelf", "tensorR", "tensorL", "tensorSelf", "dagger", "slice", "index"},
     "C05": {"interchange"},
-    "C06": {"interchange", "normal_form", "normalize"},
+    "C06": {"interchange", "normal_form", "normalize", "foliate"},
 }
 
 
